@@ -27,6 +27,20 @@ ENVQ = CORE + 'Environment'
 def run(cx: Cx):
     check_has_all(cx, CORE + 'Agent.has_component', 'components')
     _rest(cx)
+    # every query is answered: a template naming a type nobody has (or a class that is no Component), a tag nobody registered - the
+    # answer is the agents that match, possibly none; nothing on the way (a validation, a log line that looks the tag up) may raise
+    for q in ('get_agents', 'get_random_agent', 'shuffle'):
+        f = cx.fn(ENVQ + '.' + q)
+        bad = [p for p in cx.walker.paths(f, WalkOptions(unroll=1)) if p.end == 'raise']
+        if bad:
+            p0 = bad[0]
+            via = ' via ' + ' -> '.join(p0.last.data.get('via') or ()) if p0.last.data.get('via') else ''
+            cx.violation('R-GUARD', f.qualname, 'every-query-is-answered',
+                         f"Environment.{q} raises {p0.last.data.get('exc')}{via} under [{p0.cond!r}]: every template and every tag value "
+                         f"is a legal question, and the answer is the matching agents (possibly none)", where=cx.where(f, p0.last.line),
+                         path=p0.lines())
+        else:
+            cx.ok('R-GUARD', f"Environment.{q} has no raising path", where=cx.where(f), function=f.qualname)
     # the rules above speak for every environment of the package only if its subclasses (the spatial worlds) do not override the queries
     from .common import check_overrides_forward
     check_overrides_forward(cx, ENVQ, ['get_agents', 'get_random_agent', 'shuffle'])
